@@ -179,7 +179,7 @@ def _first_div_seq(v):
     return None
 
 
-def classify(rule, detail, plan, fail_elems=None):
+def classify(rule, detail, plan, fail_elems=None, fail_occ_fn=None):
     import re
     m = re.search(r"enabled=(\[.*\])$", detail)
     enabled = []
@@ -201,12 +201,13 @@ def classify(rule, detail, plan, fail_elems=None):
     if res.failed_hard():
         return None
     root = gen.from_xml(plan["charts"]["main"])
-    base = _first_div_seq(refine.refine(root, plan, res, fail_elems=fail_elems)[0])
+    fail_occ = fail_occ_fn(root, res)[0] if fail_occ_fn else None
+    base = _first_div_seq(refine.refine(root, plan, res, fail_elems=fail_elems, fail_occ=fail_occ)[0])
     if base is None:
         return None
     for (variant, fid) in VARIANTS:
         root = gen.from_xml(plan["charts"]["main"])
-        vv = refine.refine(root, plan, res, variant=(variant,), fail_elems=fail_elems)[0]
+        vv = refine.refine(root, plan, res, variant=(variant,), fail_elems=fail_elems, fail_occ=fail_occ)[0]
         s = _first_div_seq(vv)
         if s is None or s > base:
             return fid
